@@ -46,7 +46,7 @@ Theorem C12_plain_line :
          write_option name is_string [] v false false = name ++ s2l " = " ++ v ++ [10] /\
          classify_line (removelast (write_option name is_string [] v false false)) = LEntry name v false /\
          classify_line (write_option name is_string [] v false false) = LEntry name v false.
-Proof. exact C12_line_roundtrip_plain. Qed.
+Proof. exact @C12_line_roundtrip_plain. Qed.
 Print Assumptions C12_plain_line.
 
 (* what the writer quotes (non-printable, edge white space, leading quote, forced) the reader unquotes to the same bytes, for every byte string *)
@@ -58,7 +58,7 @@ Theorem C12_quoted_line :
          write_option name is_string [] v false force = name ++ s2l " = " ++ quote v ++ [10] /\
          classify_line (removelast (write_option name is_string [] v false force)) = LEntry name v true /\
          classify_line (write_option name is_string [] v false force) = LEntry name v true.
-Proof. exact C12_line_roundtrip_quoted. Qed.
+Proof. exact @C12_line_roundtrip_quoted. Qed.
 Print Assumptions C12_quoted_line.
 
 Theorem C12_empty_value_line :
@@ -67,14 +67,14 @@ Theorem C12_empty_value_line :
          write_option name is_string [] [] false false = name ++ s2l " =" ++ [10] /\
          classify_line (removelast (write_option name is_string [] [] false false)) = LEntry name [] false /\
          classify_line (write_option name is_string [] [] false false) = LEntry name [] false.
-Proof. exact C12_line_roundtrip_empty. Qed.
+Proof. exact @C12_line_roundtrip_empty. Qed.
 Print Assumptions C12_empty_value_line.
 
 Theorem C12_commented_lines_skipped :
   forall (name : str) (is_string : bool) (key v : str) (force : bool),
          classify_line (removelast (write_option name is_string key v true force)) = LSkip /\
          classify_line (write_option name is_string key v true force) = LSkip.
-Proof. exact C12_commented_lines_are_skipped. Qed.
+Proof. exact @C12_commented_lines_are_skipped. Qed.
 Print Assumptions C12_commented_lines_skipped.
 
 Theorem C12_section_header :
@@ -83,7 +83,7 @@ Theorem C12_section_header :
          trim_space sname = sname ->
          classify_line (s2l "[" ++ sname ++ s2l "]") = LHeader sname /\
          classify_line (s2l "[" ++ sname ++ s2l "]" ++ [10]) = LHeader sname.
-Proof. exact C12_section_header_roundtrip. Qed.
+Proof. exact @C12_section_header_roundtrip. Qed.
 Print Assumptions C12_section_header.
 
 Theorem C12_quoted_entry_one_line :
@@ -92,6 +92,163 @@ Theorem C12_quoted_entry_one_line :
          QuoteSpec.bytes_ok v ->
          force || is_string && ini_needs_quote v = true ->
          ini_lines (write_option name is_string [] v false force) = [name ++ s2l " = " ++ quote v].
-Proof. exact C12_quoted_entry_is_one_line. Qed.
+Proof. exact @C12_quoted_entry_is_one_line. Qed.
 Print Assumptions C12_quoted_entry_one_line.
+
+(* ---- added by bin/mkprops (batch 2) ---- *)
+From GoFlags Require Import Base.Str Base.Utf8 Golib.Strings Golib.Strconv Model.Types Model.Tag Model.Scan Model.Lookup Model.Convert Model.State Model.Closest Model.Help Model.Parse Model.Ini Model.Complete.
+From GoFlags Require Import Proofs.IniFileSpec.
+
+(* FILE LEVEL: the writer's output is the rendering of a structured document (section headers, entries, comments, blanks); Ok, Err and Panic agree *)
+Theorem C12_writer_output_is_a_line_document :
+  forall (orc : oracles) (incd comd incc : bool) (root : command) (r : rt),
+         write_ini orc incd comd incc root r = rmap render_doc (doc_of_ini orc incd comd incc root r).
+Proof. exact @C12_writer_is_lines. Qed.
+Print Assumptions C12_writer_output_is_a_line_document.
+
+(* reading a rendered well-formed document gives back exactly its sections in order of first appearance, each with its un-commented entries in order, values un-quoted *)
+Theorem C12_reader_on_rendered_documents :
+  forall doc : list wline,
+         Forall wline_ok doc -> read_ini (concat (map render_wline doc)) = Ok (doc_file doc).
+Proof. exact @C12_read_rendered. Qed.
+Print Assumptions C12_reader_on_rendered_documents.
+
+Theorem C12_rendered_line_numbers_exact :
+  forall (doc : list wline) (s : str) (es : list ini_entry) (e : ini_entry),
+         Forall wline_ok doc ->
+         In (s, es) (doc_file doc) ->
+         In e es ->
+         Datatypes.length (ini_lines (concat (map render_wline doc))) = Datatypes.length doc /\
+         (exists (i : nat) (l : wline),
+            nth_error doc i = Some l /\
+            ie_line e = N.of_nat i + 1 /\ wline_entry l = Some (ie_name e, ie_value e, ie_quoted e)).
+Proof. exact @C12_rendered_line_numbers. Qed.
+Print Assumptions C12_rendered_line_numbers_exact.
+
+Theorem C12_entries_of_one_option :
+  forall (orc : oracles) (incd comd incc : bool) (o : opt) (r : rt),
+         opt_entries orc incd comd incc o r =
+         (if opt_writable o
+          then
+           match opt_value_is_default orc o r with
+           | Ok isdef =>
+               match opt_value_texts orc o r with
+               | Ok (Some kvs) =>
+                   if negb incd && isdef || incd && comd && isdef
+                   then []
+                   else
+                    map
+                      (entry_of_text (option_ini_name o (rt_fl r (o_fid o))) (write_kind_is_string (o_ty o))
+                         (f_iniquote (rt_fl r (o_fid o)))) kvs
+               | _ => []
+               end
+           | _ => []
+           end
+          else []).
+Proof. exact @C12_opt_entries. Qed.
+Print Assumptions C12_entries_of_one_option.
+
+(* write then read: the file read back has exactly the written sections and, per section, exactly the written options' entries in order, nothing else *)
+Theorem C12_file_round_trip :
+  forall (orc : oracles) (incd comd incc : bool) (root : command) (r : rt) (text : str),
+         write_ini orc incd comd incc root r = Ok text ->
+         (forall (sn : str) (g : group),
+          In (sn, g) (ini_groups root) -> group_any orc incd comd incc g r = true -> section_name_ok sn) ->
+         (forall (sn : str) (g : group) (o : opt),
+          In (sn, g) (ini_groups root) -> In o (grp_opts g) -> opt_ok orc incd incc o r) ->
+         exists file : ini_file,
+           read_ini text = Ok file /\
+           text = render_doc (ini_doc orc incd comd incc root r) /\
+           file = doc_file (ini_doc orc incd comd incc root r) /\
+           map fst file =
+           uniq
+             ([]
+              :: map fst
+                   (filter (fun p : str * group => group_any orc incd comd incc (snd p) r) (ini_groups root))) /\
+           (forall (s : str) (es : list ini_entry),
+            In (s, es) file ->
+            map IniSpec.forget_entry es =
+            flat_map
+              (fun p : str * group =>
+               if str_eqb (fst p) s
+               then flat_map (fun o : opt => opt_entries orc incd comd incc o r) (grp_opts (snd p))
+               else []) (ini_groups root)).
+Proof. exact @C12_file_roundtrip. Qed.
+Print Assumptions C12_file_round_trip.
+
+Theorem C12_file_round_trip_per_name :
+  forall (orc : oracles) (incd comd incc : bool) (root : command) (r : rt) (text : str),
+         write_ini orc incd comd incc root r = Ok text ->
+         (forall (sn : str) (g : group),
+          In (sn, g) (ini_groups root) -> group_any orc incd comd incc g r = true -> section_name_ok sn) ->
+         (forall (sn : str) (g : group) (o : opt),
+          In (sn, g) (ini_groups root) -> In o (grp_opts g) -> opt_ok orc incd incc o r) ->
+         exists file : ini_file,
+           read_ini text = Ok file /\
+           (forall (s : str) (es : list ini_entry) (nm : str),
+            In (s, es) file ->
+            filter (fun e : str * str * bool => str_eqb (fst (fst e)) nm) (map IniSpec.forget_entry es) =
+            flat_map
+              (fun p : str * group =>
+               if str_eqb (fst p) s
+               then
+                flat_map
+                  (fun o : opt =>
+                   if str_eqb (option_ini_name o (rt_fl r (o_fid o))) nm
+                   then opt_entries orc incd comd incc o r
+                   else []) (grp_opts (snd p))
+               else []) (ini_groups root)).
+Proof. exact @C12_file_roundtrip_by_name. Qed.
+Print Assumptions C12_file_round_trip_per_name.
+
+Theorem C12_map_pairs_sorted_lossless :
+  forall (orc : oracles) (o : opt) (k vk : kind) (l : list (value * value)) (ps : list (str * str)),
+         pair_texts orc o k vk l = Ok ps ->
+         Forall (fun p : str * str => QuoteSpec.bytes_ok (fst p) /\ QuoteSpec.bytes_ok (snd p)) ps ->
+         map_pairs orc o k vk l = Ok (sort_by (fun kv : str * str => fst kv) ps).
+Proof. exact @C12_map_pairs. Qed.
+Print Assumptions C12_map_pairs_sorted_lossless.
+
+Theorem C12_integer_texts_are_plain :
+  forall (z base : Z) (t : str), format_int z base = Some t -> plain_text t.
+Proof. exact @format_int_plain. Qed.
+Print Assumptions C12_integer_texts_are_plain.
+
+Theorem C12_value_texts_wellformed :
+  forall (orc : oracles) (o : opt) (r : rt) (kvs : list (str * str)),
+         opt_value_ok orc o r ->
+         opt_value_texts orc o r = Ok (Some kvs) ->
+         Forall
+           (fun kv : str * str =>
+            text_ok (write_kind_is_string (o_ty o)) (f_iniquote (rt_fl r (o_fid o))) (fst kv) (snd kv)) kvs.
+Proof. exact @C12_value_texts_ok. Qed.
+Print Assumptions C12_value_texts_wellformed.
+
+(* the same with hypotheses on declarations and stored values only (names without line breaks, byte strings, plain float/duration texts) *)
+Theorem C12_file_round_trip_from_values :
+  forall (orc : oracles) (incd comd incc : bool) (root : command) (r : rt) (text : str),
+         write_ini orc incd comd incc root r = Ok text ->
+         (forall (sn : str) (g : group),
+          In (sn, g) (ini_groups root) -> group_any orc incd comd incc g r = true -> section_name_ok sn) ->
+         (forall (sn : str) (g : group) (o : opt),
+          In (sn, g) (ini_groups root) -> In o (grp_opts g) -> opt_decl_ok orc incc o r) ->
+         exists file : ini_file,
+           read_ini text = Ok file /\
+           text = render_doc (ini_doc orc incd comd incc root r) /\
+           file = doc_file (ini_doc orc incd comd incc root r) /\
+           map fst file =
+           uniq
+             ([]
+              :: map fst
+                   (filter (fun p : str * group => group_any orc incd comd incc (snd p) r) (ini_groups root))) /\
+           (forall (s : str) (es : list ini_entry),
+            In (s, es) file ->
+            map IniSpec.forget_entry es =
+            flat_map
+              (fun p : str * group =>
+               if str_eqb (fst p) s
+               then flat_map (fun o : opt => opt_entries orc incd comd incc o r) (grp_opts (snd p))
+               else []) (ini_groups root)).
+Proof. exact @C12_file_roundtrip_values. Qed.
+Print Assumptions C12_file_round_trip_from_values.
 
